@@ -54,6 +54,9 @@ func (s *Scheme) SetStoredData(d []byte) {
 }
 
 func (s *Scheme) HandleMessage(msg *IncMessage) {
+	// Messages may arrive before, or while, KeyGen or Sign are invoked for the first time
+	s.setupOnce.Do(s.setup)
+
 	switch msg.MsgType {
 	case uint8(MsgTypeSync):
 		s.handleSync(msg)
